@@ -2,6 +2,7 @@
 // lookups return exactly the backend's value (and query it exactly once).
 #include <cmath>
 #include <cstdint>
+#include <cstring>
 #include <limits>
 #include <sstream>
 #include <variant>
@@ -165,6 +166,22 @@ struct Case {
 
 // backup over real array storage: an out-of-range lookup that touched the backend would be an
 // out-of-bounds read (ASan / library assertion)
+// what the cell with this id stores: mostly id / id + 0.5, but some cells hold NaN, an infinity or a negative zero
+// (a measured map with holes); inside the box the layer returns the cell AS STORED
+static inline void stored_cell(uint64_t id, float * out)
+{
+    out[0] = (float)id;
+    out[1] = (float)id + 0.5f;
+    if (id % 7 == 3) out[0] = std::numeric_limits<float>::quiet_NaN();
+    if (id % 7 == 5) out[1] = -std::numeric_limits<float>::infinity();
+    if (id % 11 == 0) out[0] = -0.f;
+    if (id % 13 == 6) out[0] = out[1] = std::numeric_limits<float>::quiet_NaN();
+}
+static inline bool same_bits(float a, float b)
+{
+    return std::memcmp(&a, &b, 4) == 0;
+}
+
 template <std::size_t N>
 static void over_array(vh::Rng & rng, unsigned nfields)
 {
@@ -198,8 +215,10 @@ static void over_array(vh::Rng & rng, unsigned nfields)
                     cc[k] = c[k];
                     id = id * 64 + c[k];
                 }
-                raw.at(cc)[0] = (float)id;
-                raw.at(cc)[1] = (float)id + 0.5f;
+                float cell[2];
+                stored_cell(id, cell);
+                raw.at(cc)[0] = cell[0];
+                raw.at(cc)[1] = cell[1];
                 std::size_t k = 0;
                 while (k < N && ++c[k] >= ext[k]) c[k++] = 0;
                 if (k == N) break;
@@ -211,6 +230,7 @@ static void over_array(vh::Rng & rng, unsigned nfields)
         f.dump(ss);
         field_t reloaded(static_cast<std::istream &>(ss));
         typename field_t::view_t view((fi & 1) ? reloaded : f);
+        const std::string bytes_before = ss.str();
         for (unsigned q = 0; q < 600; ++q) {
             typename field_t::coordinate_t c;
             bool inside = true;
@@ -231,8 +251,16 @@ static void over_array(vh::Rng & rng, unsigned nfields)
             typename field_t::output_t got = view.at(c);
             vh::ev();
             vh::nontrivial(vh::fnv(&c, sizeof c, vh::fnv(&conf, sizeof conf, vh::fnv(name))));
-            bool ok = inside ? (got[0] == (float)id && got[1] == (float)id + 0.5f) : (got[0] == -7.f && got[1] == -8.f);
+            float cell[2];
+            stored_cell(id, cell);
+            bool ok = inside ? (same_bits(got[0], cell[0]) && same_bits(got[1], cell[1])) : (got[0] == -7.f && got[1] == -8.f);
             if (!ok) vh::viol(name, "extents=" + vh::jarr(ext, N) + " box=[" + vh::jarr(conf.min, N) + "," + vh::jarr(conf.max, N) + "] c=" + vh::jarr(c, N) + " got=" + vh::jarr(got, 2) + (inside ? " inside" : " outside"));
+        }
+        // lookups never modify the field: its serialised form is byte-identical afterwards
+        {
+            std::stringstream after(std::ios::in | std::ios::out | std::ios::binary);
+            ((fi & 1) ? reloaded : f).dump(after);
+            if (after.str() != bytes_before) vh::viol(name + ":lookup-modified-field", "extents=" + vh::jarr(ext, N) + ": the field's dump differs after 600 lookups (cells holding NaN / inf / -0 included)");
         }
     }
 }
